@@ -72,9 +72,11 @@ def saneB (s : Cell) : Bool :=
     occset.contains ind || s.occ[ind]? == some (-1)
   inLists && rest
 
-/-- `reorder`: `new[c][i] = old[c][mapping[c][i]]`, zip-truncated like the source, rolled
-    back with ValueError when the result is not sane; IndexError for an out-of-range entry. -/
-def reorder (s : Cell) (mapping : List (List Nat)) : Except Err Cell :=
+/-- `reorder` as it was before the guard on `len(mapping)` (repo 69f613b, finding F41):
+    `new[c][i] = old[c][mapping[c][i]]`, zip-truncated like the old source, rolled back with
+    ValueError when the result is not sane; IndexError for an out-of-range entry.  Kept to state
+    why the guard is needed (OnsagerProofs/C28More.lean: `reorderZip_truncates`). -/
+def reorderZip (s : Cell) (mapping : List (List Nat)) : Except Err Cell :=
   let pairs := s.chemorder.zip mapping
   let ok := pairs.all fun (clist, cmap) =>
     (List.range clist.length).all fun i =>
@@ -87,6 +89,12 @@ def reorder (s : Cell) (mapping : List (List Nat)) : Except Err Cell :=
       (List.range clist.length).map fun i => clist.getD (cmap.getD i 0) 0
     let s' := { s with chemorder := neworder }
     if saneB s' then .ok s' else .error .value
+
+/-- `reorder`: ValueError unless there is exactly one map per chemistry (the guard runs first),
+    then as `reorderZip`. -/
+def reorder (s : Cell) (mapping : List (List Nat)) : Except Err Cell :=
+  if mapping.length ≠ s.chemorder.length then .error .value
+  else reorderZip s mapping
 
 /-- Abstract POSCAR content: for each species the list of occupied sites, in order. -/
 def poscar (s : Cell) : List (List Nat) := s.chemorder
